@@ -4,7 +4,7 @@ Pairing (state swapped out of the handshake machine is written back on every exi
 dominance (verification calls dominate every transition to a trusted state) on the
 security-feature MIR. X.509 chain semantics, DH and the signature algorithms are not decided.
 """
-from rdv.core import (CheckBroken, Origins, Pos, call_matches, callee_res, infeasible_edges, norm_path, primary_edges,
+from rdv.core import (CheckBroken, Origins, Pos, call_matches, callee_res, infeasible_edges, norm_path, primary_edges, resolve_captures,
                       strip_generics, switch_edges, term_has, term_leaves, term_str)
 
 CONFIGS = ['security']
@@ -58,6 +58,116 @@ def eq_edges_of(edges, field):
     return out
 
 
+CHECK_NAMES = ('ca', 'guid', 'sig', 'c1', 'c2')
+
+
+def _local_check_edges(fx, b, edges):
+    """Success edges of the five verification steps that are taken inside body `b` itself (captures of a closure resolved into its parent)."""
+    if b.kind in ('closure', 'coroutine'):
+        edges = [(s_, t_, resolve_captures(fx, b, cond), lab) for s_, t_, cond, lab in edges]
+    return {
+        'ca': ok_edges_of(edges, 'Certificate::verify_signed_by_certificate', lambda c: has_field(c[2][1], 'identity_ca')),
+        'guid': ok_edges_of(edges, 'validate_remote_guid'),
+        'sig': ok_edges_of(edges, 'Certificate::verify_signed_data_with_algorithm'),
+        'c1': eq_edges_of(edges, 'challenge1'),
+        'c2': eq_edges_of(edges, 'challenge2'),
+    }
+
+
+def _ok_results(b):
+    return [(bb, si) for bb, si, st in b.statements() if st['s'] == 'assign' and st['lhs']['l'] == 0 and not st['lhs'].get('p')
+            and st['rv']['r'] == 'agg' and st['rv'].get('variant') == 'Ok']
+
+
+def guaranteed_by(fx, k, rep=None):
+    """Verification steps a Result-returning closure guarantees: X is guaranteed iff every path from its entry to an Ok(..) result passes a success edge of X."""
+    ogk = Origins(k, summaries=True)
+    ek = list(switch_edges(k, fx, ogk))
+    infk = infeasible_edges(k, fx, ogk, ek)
+    loc = _local_check_edges(fx, k, ek)
+    oks = _ok_results(k)
+    Pk = Pos(k)
+    out = set()
+    if not oks:
+        return out
+    for x in CHECK_NAMES:
+        if loc[x] and all(Pk.every_path_passes(None, o, via_edges=list(loc[x]) + list(infk), from_entry=True) for o in oks):
+            out.add(x)
+    if rep is not None:
+        rep.analysed(k)
+    return out
+
+
+def check_edges(fx, b, og, edges, rep=None):
+    """Success edges of the verification steps in `b`: taken in `b` itself, or the Ok edge of a call of a closure of `b` that guarantees the step
+    (a verification phase wrapped in `(|| -> Result<..> { .. })()` so that its failure can be handled in one place)."""
+    out = {x: list(v) for x, v in _local_check_edges(fx, b, edges).items()}
+    memo = {}
+    for s_, t_, cond, lab in edges:
+        if lab in ('Continue', 'Ok') and cond[0] == 'discr':
+            base = cond[1]
+            while base[0] == 'call' and base[1].endswith(('::map_err', 'Try::branch')):
+                base = base[2][0]
+            if base[0] != 'call':
+                continue
+            ks = [k for k in fx.by_key.get(norm_path(base[1]), []) if k.kind == 'closure' and k.key.startswith(b.key + '::')]
+            if len(ks) != 1:
+                continue
+            k = ks[0]
+            if k.key not in memo:
+                memo[k.key] = guaranteed_by(fx, k, rep)
+            for x in memo[k.key]:
+                out[x].append((s_, t_))
+    return out
+
+
+def _is_state_place(pl):
+    names = [e.get('n') for e in (pl.get('p') or []) if isinstance(e, dict)]
+    return names[-2:] == ['handshake', 'state'] or bool(names and names[-1] == 'state' and 'handshake' in names)
+
+
+def state_restorers(fx):
+    """Keys of plugin methods that store one of their parameters into handshake.state (and nothing else there)."""
+    out = set()
+    for b in fx.bodies:
+        if not b.key.startswith(AUTH) or b.kind not in ('fn', 'assoc_fn'):
+            continue
+        st_sites = [(bb, si, st) for bb, si, st in b.statements() if st['s'] == 'assign' and _is_state_place(st['lhs'])]
+        if not st_sites:
+            continue
+        ogb = Origins(b, summaries=True)
+        if all(st['rv']['r'] == 'use' and term_leaves_are_params(ogb.of_operand(st['rv']['x'], bb, si)) for bb, si, st in st_sites):
+            out.add(b.key)
+    return out
+
+
+def term_leaves_are_params(t):
+    while t[0] in ('deref', 'ref', 'move', 'copy') and len(t) > 1 and isinstance(t[1], tuple):
+        t = t[1]
+    return t[0] == 'param'
+
+
+def _is_swapped_out_state(v):
+    """The local the state was swapped into (a `mut(..)` clobber of the dummy), or an aggregate of one Pending* variant whose every field comes from the same-named
+    field of that local viewed as the same variant."""
+    if v[0] == 'mutated':
+        return True
+    if v[0] == 'agg' and '::BuiltinHandshakeState::' in str(v[1]):
+        variant = str(v[1]).rsplit('::', 1)[-1]
+        ops = v[2]
+        if not ops:
+            return False
+        for o in ops:
+            name = o[0] if (isinstance(o, tuple) and len(o) == 2 and isinstance(o[0], str) and isinstance(o[1], tuple)) else None
+            t = o[1] if name else o
+            if not term_has(t, lambda x: x[0] == 'variant' and x[1] == variant):
+                return False
+            if name and not has_field(t, name):
+                return False
+        return True
+    return False
+
+
 def run(rep, facts, tier):
     fx = facts['security']
     rep.explanation = ('In the builtin authentication plugin: (pairing) the handshake state swapped out at the start of process_handshake is written back on every exit; '
@@ -76,6 +186,7 @@ def run(rep, facts, tier):
     P = Pos(ph)
     edges = list(switch_edges(ph, fx, og))
     infeas = infeasible_edges(ph, fx, og, edges)
+    chk = check_edges(fx, ph, og, edges, rep)
 
     # ---------------------------------------------------------------- R19.1
     swaps = [(bb, 'term') for bb, t in ph.calls() if callee_res(t).endswith('mem::swap') and
@@ -84,14 +195,16 @@ def run(rep, facts, tier):
         raise CheckBroken('process_handshake: expected one mem::swap on handshake.state, found %d' % len(swaps))
     stores = []
     for bb, si, st in ph.statements():
-        if st['s'] == 'assign':
-            pr = st['lhs'].get('p') or []
-            names = [e.get('n') for e in pr if isinstance(e, dict)]
-            if names[-2:] == ['handshake', 'state'] or (names and names[-1] == 'state' and 'handshake' in names):
-                stores.append((bb, si))
+        if st['s'] == 'assign' and _is_state_place(st['lhs']):
+            stores.append((bb, si))
+    # helper methods that put a state handed to them back into handshake.state
+    restorers = state_restorers(fx)
+    restore_calls = [(bb, t) for bb, t in ph.calls() if norm_path(callee_res(t)) in restorers]
+    for bb, t in restore_calls:
+        stores.append((bb, 'term'))
     rets = [(r, 'term') for r in ph.return_blocks()]
     arm_edges = [(s_, t_, lab) for s_, t_, cond, lab in primary_edges(ph, edges)
-                 if cond[0] == 'discr' and isinstance(lab, str) and 'BuiltinHandshakeState' in (cond[2] or '')]
+                 if cond[0] == 'discr' and 'BuiltinHandshakeState' in (cond[2] or '')]
     if not arm_edges:
         raise CheckBroken('process_handshake: match on the handshake state not found')
     sw_blocks = set(s_ for s_, _t, _l in arm_edges)
@@ -99,20 +212,28 @@ def run(rep, facts, tier):
     pre = any(P.can_reach(swaps[0], r, avoid_pos=stores + [(sb, 'term') for sb in sw_blocks], avoid_edges=infeas) for r in rets)
     rep.check(not pre, 'R19.1', 'process_handshake/pre-match', 'no exit between taking the state out and dispatching on it',
               'process_handshake can return (e.g. via `?`) after swapping the state out and before the match, leaving the dummy state PendingRequestSend behind', ph.where(swaps[0][0]))
+    # An exit that leaves the dummy behind is tolerable only once the message has been proven genuine (behind the success of the signature
+    # verification of that arm): a forged, altered, replayed or out-of-order message can then not take it.
+    committed = list(infeas) + list(chk['sig'])
+    seen_arms = set()
     for s_, tg, lab in sorted(set(arm_edges), key=lambda x: str(x[2])):
-        if not isinstance(lab, str):
+        name = lab if isinstance(lab, str) else 'other'
+        if (name, tg) in seen_arms:
             continue
-        leak = [r for r in rets if P.can_reach((tg, 0), r, avoid_pos=stores, avoid_edges=infeas)]
-        rep.check(not leak, 'R19.1', 'process_handshake/arm:%s' % lab, 'every exit of the arm writes a state back',
+        seen_arms.add((name, tg))
+        leak = [r for r in rets if P.can_reach((tg, 0), r, avoid_pos=stores, avoid_edges=committed) or P.norm((tg, 0)) == P.norm(r)]
+        rep.check(not leak, 'R19.1', 'process_handshake/arm:%s' % name, 'every exit of the arm that a rejected message can take writes a state back',
                   'in state %s an exit of process_handshake (error returns / `?`) leaves the dummy state PendingRequestSend in place of the state that was swapped out: '
-                  'after one rejected message the genuine handshake can never complete' % lab, ph.where(tg))
+                  'after one rejected message the genuine handshake can never complete' % name, ph.where(tg))
+    # what is put back is what was taken out
+    for bb, t in restore_calls:
+        v = og.of_operand(t['args'][-1], bb, 'term')
+        ok = _is_swapped_out_state(v)
+        rep.check(ok, 'R19.1', 'process_handshake/restores-what-was-taken@%d' % restore_calls.index((bb, t)), 'the state handed back is the one swapped out (or rebuilt field by field from it)',
+                  'process_handshake hands back a state that is not the one it swapped out: %s' % term_str(v)[:200], ph.where(bb))
 
     # ---------------------------------------------------------------- R19.2
-    ca_ok = ok_edges_of(edges, 'Certificate::verify_signed_by_certificate', lambda c: has_field(c[2][1], 'identity_ca'))
-    guid_ok = ok_edges_of(edges, 'validate_remote_guid')
-    sig_ok = ok_edges_of(edges, 'Certificate::verify_signed_data_with_algorithm')
-    c1_ok = eq_edges_of(edges, 'challenge1')
-    c2_ok = eq_edges_of(edges, 'challenge2')
+    ca_ok, guid_ok, sig_ok, c1_ok, c2_ok = chk['ca'], chk['guid'], chk['sig'], chk['c1'], chk['c2']
     n_sites = 0
     for bb, si, st in ph.statements():
         if st['s'] == 'assign' and st['rv']['r'] == 'agg' and (st['rv'].get('variant') or '').startswith('CompletedWithFinalMessage'):
@@ -191,6 +312,8 @@ def run(rep, facts, tier):
     # ------------------------------------------------------------ R19.4
     rule_19_4(rep, fx)
     rule_19_5(rep, fx)
+    rule_19_7(rep, fx)
+    rule_19_8(rep, fx)
 
     # ------------------------------------------------------------ R19.6 crossed roles (shared lint, rdv/swaplint.py)
     from rdv import swaplint
@@ -315,3 +438,138 @@ def rule_19_5(rep, fx):
                     okv = True
     rep.check(okv, 'R19.5', 'validate_remote_guid/compares', 'announced GUID start == guid_start_from_certificate(presented certificate)',
               'validate_remote_guid does not compare the announced GUID with the value derived from the presented certificate', v[0].where() if v else '')
+
+
+TOKEN_CALLS = ('::extract_request', '::extract_reply', '::extract_final')
+
+
+def _from_token(t):
+    return term_has(t, lambda x: x[0] == 'call' and x[1].endswith(TOKEN_CALLS))
+
+
+def rule_19_7(rep, fx):
+    """Every comparison of a received token field with a locally stored / computed value decides: from its mismatch edge no Ok(..) result is reachable.
+    And the hash of message 1 carried through the exchange by the replier is the one it computed itself."""
+    rep.rule('R19.7', 'mismatch never succeeds: in begin_handshake_reply and process_handshake (verification closures included) every ==/!= between a field of the received '
+                      'token and a locally stored or computed value leads, on its mismatch edge, only to error results; the hash(C1) that begin_handshake_reply signs, echoes and '
+                      'stores is the one it computed over the received C1 fields (message 1 is unsigned: this hash is what binds its content to the later signatures)')
+    n = 0
+    for name in ('begin_handshake_reply', 'process_handshake'):
+        top = find_method(fx, name)
+        for b in [top] + [k for k in fx.closures_of(top) if k.kind == 'closure']:
+            og = Origins(b, summaries=True)
+            edges = list(switch_edges(b, fx, og))
+            infeas = infeasible_edges(b, fx, og, edges)
+            oks = _ok_results(b)
+            P = Pos(b)
+            seen = set()
+            for s_, t_, cond, lab in edges:
+                if not (cond[0] == 'call' and cond[1].endswith(('::eq', '::ne')) and len(cond[2]) == 2):
+                    continue
+                a, c = cond[2]
+                if _from_token(a) == _from_token(c):
+                    continue
+                mismatch = (cond[1].endswith('::eq') and lab is False) or (cond[1].endswith('::ne') and lab is True)
+                if not mismatch:
+                    continue
+                tok = a if _from_token(a) else c
+                fld = [x for x in _fields_of(tok) if not str(x).isdigit()]
+                key = '%s/%s' % (b.key.split('authentication::')[-1], fld[0] if fld else 'value')
+                if key in seen:
+                    continue
+                seen.add(key)
+                other = c if tok is a else a
+                # a comparison that only chooses between two supported algorithms is not a verification (both outcomes are legitimate)
+                if other[0] == 'const' and not term_has(other, lambda x: x[0] in ('field', 'call')):
+                    continue
+                n += 1
+                leak = [o for o in oks if P.can_reach((t_, 0), o, avoid_edges=infeas) or P.norm((t_, 0)) == P.norm(o)]
+                rep.check(not leak, 'R19.7', key + '/mismatch-rejects', 'the mismatch edge reaches no Ok(..) result',
+                          '%s: the received %s is compared with the local value but a mismatch can still end in Ok(..): the comparison does not decide (an altered message is accepted)'
+                          % (b.key.split('authentication::')[-1], fld[0] if fld else 'value'), b.where(s_))
+    rep.floor('R19.7', n, 11, 'token-vs-local comparisons in the handshake functions')
+    # provenance of the hash(C1) carried forward by the replier
+    br = find_method(fx, 'begin_handshake_reply')
+    og = Origins(br, summaries=True)
+    m = 0
+    for bb, si, st in br.statements():
+        if st['s'] == 'assign' and st['rv']['r'] == 'agg' and st['rv'].get('variant') == 'PendingFinalMessage':
+            v = og.of_operand(st['rv']['ops'][st['rv']['fields'].index('hash_c1')], bb, si)
+            m += 1
+            ok = has_call(v, 'Sha256::hash') and not _from_token_field(v, 'hash_c1')
+            rep.check(ok, 'R19.7', 'begin_handshake_reply/stored-hash_c1', 'PendingFinalMessage.hash_c1 = Sha256::hash(received C1 fields)',
+                      'begin_handshake_reply stores a hash_c1 that is (or may be) the one received in the unsigned request instead of the one computed over the received C1 fields: %s'
+                      % term_str(v)[:160], br.where(bb, si))
+    # the "hash_c1" property of the signed data and of the reply token
+    for bb, t in br.calls():
+        if callee_res(t).endswith('BinaryProperty::with_propagate') and len(t['args']) >= 2:
+            nm = og.of_operand(t['args'][0], bb, 'term')
+            if term_has(nm, lambda x: x[0] == 'const' and 'hash_c1' in str(x[-1])):
+                v = og.of_operand(t['args'][1], bb, 'term')
+                m += 1
+                ok = has_call(v, 'Sha256::hash') and not _from_token_field(v, 'hash_c1')
+                rep.check(ok, 'R19.7', 'begin_handshake_reply/signed-hash_c1', 'the "hash_c1" property of the signed reply content = Sha256::hash(received C1 fields)',
+                          'begin_handshake_reply signs a hash_c1 that is (or may be) the received one: %s' % term_str(v)[:160], br.where(bb))
+    rep.floor('R19.7', m, 2, 'uses of hash(C1) in begin_handshake_reply (state + signed content)')
+
+
+def _fields_of(t):
+    out = []
+
+    def walk(x):
+        if isinstance(x, tuple):
+            if x and x[0] == 'field':
+                out.append(x[1])
+            for y in x:
+                walk(y)
+    walk(t)
+    return out
+
+
+def _from_token_field(t, field):
+    return term_has(t, lambda x: x[0] == 'field' and x[1] == field and _from_token(x))
+
+
+ECHOED = ('challenge1', 'challenge2', 'dh1', 'dh2', 'hash_c1', 'hash_c2')
+
+
+def rule_19_8(rep, fx):
+    """Echo completeness (sibling agreement of the two arms of process_handshake): everything the pending state remembers about the exchange and the received
+    token echoes back is compared."""
+    rep.rule('R19.8', 'echo completeness: for each pending state handled by process_handshake, every field of that state (challenge1/2, dh1/2 or their public part, hash_c1/2) '
+                      'that the received token carries too is compared with the token\'s value (R19.7 makes the mismatch reject); the reply arm and the final arm thus check the '
+                      'same kinds of echoes')
+    adt = fx.adt(STATE_ADT)
+    ph = find_method(fx, 'process_handshake')
+    pairs = set()      # (variant, state field, token field)
+    for b in [ph] + [k for k in fx.closures_of(ph) if k.kind == 'closure']:
+        og = Origins(b, summaries=True)
+        for s_, t_, cond, lab in switch_edges(b, fx, og):
+            if not (cond[0] == 'call' and cond[1].endswith(('::eq', '::ne')) and len(cond[2]) == 2):
+                continue
+            c = resolve_captures(fx, b, cond) if b.kind == 'closure' else cond
+            x, y = c[2]
+            if _from_token(x) == _from_token(y):
+                continue
+            tok, loc = (x, y) if _from_token(x) else (y, x)
+            tfs = [f for f in _fields_of(tok) if f in ECHOED]
+            vs = []
+            term_has(loc, lambda z: z[0] == 'variant' and str(z[1]).startswith('Pending') and not vs.append(z[1]))
+            for v in vs:
+                for sf in _fields_of(loc):
+                    for tf in tfs:
+                        pairs.add((v, sf, tf))
+    n = 0
+    for v in adt['variants']:
+        if v['name'] not in EXPECTED_STATES['process_handshake']:
+            continue
+        for f in v['fields']:
+            sf = f['name'] if isinstance(f, dict) else f
+            tf = sf[:-len('_public')] if sf.endswith('_public') else sf
+            if tf not in ECHOED:
+                continue
+            n += 1
+            rep.check((v['name'], sf, tf) in pairs, 'R19.8', 'process_handshake/%s/%s' % (v['name'], sf), 'compared with the token\'s %s' % tf,
+                      'process_handshake, state %s: the received token\'s `%s` is never compared with the `%s` remembered in the state, although the other echoes are: a message in '
+                      'which only this value was replaced is accepted' % (v['name'], tf, sf), ph.where())
+    rep.floor('R19.8', n, 9, 'echoed fields of the two pending states')
